@@ -50,9 +50,21 @@ type Options struct {
 	JointValidate int // number of 1-deviation traces to validate jointly (in addition to FIFO and terminals); -1 = all
 	// ResultOracle is evaluated on every terminal state in which all parties have finished; it receives
 	// the end values per node (nil where none).
-	ResultOracle func(ends [][]interface{}) []string
+	ResultOracle func(t TermCtx) []string
 	Observe      func(nw *netrun.Network, p int) map[string]string
 	OnGlobal     func(s *explore.Sys, g *explore.GState, viol func(key, what string))
+}
+
+// TermCtx is what a result oracle sees of a terminal state.
+type TermCtx struct {
+	Ends    [][]interface{}
+	Emitted [][]EmittedMsg // per node, in emission order
+}
+
+type EmittedMsg struct {
+	Type  string
+	Bytes []byte
+	To    []int
 }
 
 type Stats struct {
@@ -342,7 +354,7 @@ func Explore(r *core.Run, sc Scenario, opt Options) Stats {
 	outcomes := map[string]bool{}
 	var firstEmitted []string
 	var res *explore.Result
-	terminal := func(s *explore.Sys, locals []*explore.LState, trace []string) {
+	terminal := func(s *explore.Sys, locals []*explore.LState, trace []string, live *netrun.Network) {
 		// no enabled event: every sent message delivered, every party started
 		var ends [][]interface{}
 		allFin := true
@@ -376,7 +388,20 @@ func Explore(r *core.Run, sc Scenario, opt Options) Stats {
 			viol("emitted-set-depends-on-schedule", "two terminal states differ in the messages sent", []string{strings.Join(firstEmitted, " || "), o})
 		}
 		if opt.ResultOracle != nil {
-			for _, pr := range opt.ResultOracle(ends) {
+			tc := TermCtx{Ends: ends, Emitted: make([][]EmittedMsg, s.N)}
+			for p := 0; p < s.N; p++ {
+				if live != nil {
+					for _, m := range live.Nodes[p].Emitted {
+						tc.Emitted[p] = append(tc.Emitted[p], EmittedMsg{m.Type, m.Bytes, m.To})
+					}
+				} else {
+					for _, id := range locals[p].Emitted {
+						m := s.Msg(id)
+						tc.Emitted[p] = append(tc.Emitted[p], EmittedMsg{m.Type, m.Bytes, m.To})
+					}
+				}
+			}
+			for _, pr := range opt.ResultOracle(tc) {
 				viol("result/"+pr, "terminal result violates the protocol's result oracle", trace)
 			}
 		}
@@ -397,7 +422,7 @@ func Explore(r *core.Run, sc Scenario, opt Options) Stats {
 		for p := range locals {
 			locals[p] = sys.Local(g, p)
 		}
-		terminal(sys, locals, explore.TraceStrings(res.Trace(g)))
+		terminal(sys, locals, explore.TraceStrings(res.Trace(g)), nil)
 	}
 	for _, id := range sys.MsgIDs() {
 		checkMsg(sys, id)
@@ -642,7 +667,7 @@ func continueFIFO(s *explore.Sys, g *explore.GState, fifo []explore.Event) []exp
 func exploreJointModes(r *core.Run, sc Scenario, opt Options, sys *explore.Sys, st *Stats,
 	onLocal func(s *explore.Sys, prev, cur *explore.LState, e explore.Event),
 	checkMsg func(s *explore.Sys, id string),
-	terminal func(s *explore.Sys, locals []*explore.LState, trace []string),
+	terminal func(s *explore.Sys, locals []*explore.LState, trace []string, live *netrun.Network),
 	outcomes map[string]bool) Stats {
 	sys.RefIDs = true
 	step := func(prev, cur *explore.LState, e explore.Event, hist []explore.Event) {
@@ -655,7 +680,7 @@ func exploreJointModes(r *core.Run, sc Scenario, opt Options, sys *explore.Sys, 
 	case "joint":
 		res := sys.ExploreJoint(explore.JointOptions{Workers: opt.Workers, MaxStates: opt.MaxStates, MaxDups: opt.Dups, OnStep: step})
 		for _, t := range res.Terminals {
-			terminal(sys, t.Locals, explore.TraceStrings(t.Hist))
+			terminal(sys, t.Locals, explore.TraceStrings(t.Hist), t.Net)
 		}
 		st.States, st.Transitions, st.MaxDepth, st.Terminals, st.Capped = res.States, res.Transitions, res.MaxDepth, len(res.Terminals), res.Capped
 		st.JointReplays = res.Replays
@@ -676,7 +701,7 @@ func exploreJointModes(r *core.Run, sc Scenario, opt Options, sys *explore.Sys, 
 				r.Cap("scripted run aborted: " + dr.Bad)
 				return
 			}
-			terminal(sys, dr.Locals, explore.TraceStrings(dr.Trace))
+			terminal(sys, dr.Locals, explore.TraceStrings(dr.Trace), dr.Net)
 			if len(dr.Script) == 0 || len(st.Samples) < 3 {
 				st.Samples = append(st.Samples, map[string]interface{}{"scenario": sc.Name, "kind": fmt.Sprintf("complete run with deviations %v", dr.Script), "trace": explore.TraceStrings(dr.Trace)})
 			}
